@@ -358,6 +358,7 @@ func census(bubbleOnly bool) (n int, tops []string) {
 }
 
 func (rt *runtimeS) quiesce() {
+	synctest.Wait() // (the step before may have been one that does not wait)
 	// pending client operations
 	cs := make([]int, 0, len(rt.calls))
 	for c := range rt.calls {
